@@ -282,3 +282,21 @@ def pins_case_file(path, traces, cfgs, permissive=False):
             f.write('Definition Q%d := Eval vm_compute in pcheck_segments 0 P%d.\n' % (k, k))
         f.write('Definition M := Eval vm_compute in [%s].\nPrint M.\n' % '; '.join('Q%d' % k for k in range(len(traces))))
     return allstats
+
+
+def nested_case_file(path, traces):
+    """TA_Restore.tree_nestedb (hypothesis of C01_refused_update_restores_allocation) on every distinct pool tree observed"""
+    trees = []
+    for _, recs in traces:
+        for rec in recs:
+            ta = rec.get('ta')
+            if ta and ta.get('pools'):
+                term, _ = tree_term(ta['pools'])
+                if term not in trees:
+                    trees.append(term)
+    with open(path, 'w') as f:
+        f.write('From Coq Require Import ZArith List. Import ListNotations.\nFrom stdpp Require Import gmap.\nFrom NV Require Import TA_Model TA_Restore.\nOpen Scope nat_scope.\n')
+        for k, term in enumerate(trees):
+            f.write('Definition T%d : tree := %s.\n' % (k, term))
+        f.write('Definition M := Eval vm_compute in [%s].\nPrint M.\n' % '; '.join('tree_nestedb T%d' % k for k in range(len(trees))))
+    return len(trees)
